@@ -547,7 +547,7 @@ func main() {
 	out.Imports = "From Verif Require Import Base.Lin Model.KeepAlive.\n"
 	out.Rule = "three streams over a real connectedPlayer with 1..3 serverConnections on recording backend connections: (seq) 4..40 calls: backend keep-alives (through recordBackendKeepAlive or the transition/config/play backend handlers), client replies (through forwardKeepAlive or the play/config client handlers), connection status changes (nil, closed, Handshake..Play) and changes of the connected / in-flight slot; ids mostly from a pool of 6 (repeats, duplicates, unknown), some random or extreme int64; (overflow) 60..72 distinct ids pending on one connection with refreshes and intermediate replies, then replies around the eviction boundary; (conc) 2..4 goroutines, 1..3 calls each, ids disjoint per connection, logical clock. Non-trivial: seq/overflow = at least one reply forwarded and at least one dropped; conc = two calls of different goroutines overlapped. Distinct = distinct Coq case terms."
 
-	nSeq, nOv, nConc := f.Count(260), f.Count(14), f.Count(130)
+	nSeq, nOv, nConc := f.Count(200), f.Count(10), f.Count(90)
 	for i := 0; i < nSeq; i++ {
 		r := rng.Fork()
 		stats, cur, inf, ops := seqHistory(r)
